@@ -1,18 +1,24 @@
 #!/bin/bash
 # Evaluate the checks against the seeded changes: apply each patch to a scratch worktree of /repo (outside /repo and
 # /verif), point the property's quick check at it through VERIF_REPO, undo.  usage: ./tools_eval_seeded.sh [dir ...]
+# SEEDED_WT=<scratch worktree>  SEEDS="0 1 2" (one run of the quick check per VERIF_SEED; default: the current one)
 WT=${SEEDED_WT:-/tmp/wt-verify}
 [ -d "$WT" ] || git -C /repo worktree add --detach "$WT" HEAD >/dev/null 2>&1
 cd /verif
 dirs=${@:-seeded/*}
 for d in $dirs; do
   prop=$(basename $d | cut -d- -f1)
-  git -C $WT checkout -q -- . ; git -C $WT checkout -q --detach $(git -C /repo rev-parse HEAD) ; git -C $WT apply $(pwd)/$d/patch.diff || { echo "$d APPLY-FAILED"; continue; }
-  rd=$(mktemp -d /tmp/irsim-seeded-XXXX)
-  out=$(VERIF_REPO=$WT VERIF_REPLAY_DIR=$rd ./check $prop --tier ${TIER:-quick} --no-evidence ${EXTRA} 2>&1)
-  rc=$?
+  git -C $WT checkout -q -- . ; git -C $WT checkout -q --detach $(git -C /repo rev-parse HEAD) ; git -C $WT apply $(pwd)/$d/patch.diff 2>/dev/null || git -C $WT apply -3 $(pwd)/$d/patch.diff >/dev/null 2>&1 || { echo "$d APPLY-FAILED"; git -C $WT checkout -q -- . ; continue; }
+  git -C $WT reset -q 2>/dev/null
+  codes=""
+  for sd in ${SEEDS:-${VERIF_SEED:-0}}; do
+    rd=$(mktemp -d /tmp/irsim-seeded-XXXX)
+    out=$(VERIF_SEED=$sd VERIF_REPO=$WT VERIF_REPLAY_DIR=$rd ./check $prop --tier ${TIER:-quick} --no-evidence ${EXTRA} 2>&1)
+    rc=$?
+    codes="$codes$rc"
+    rm -rf $rd
+  done
   sigs=$(echo "$out" | grep "signature=" | sed 's/.*signature=//; s/ run_index.*//' | sort -u | head -4 | tr '\n' ';')
-  echo "$d exit=$rc $(echo "$out" | tail -1 | sed 's/ wall.*//') :: $sigs"
-  rm -rf $rd
+  if [ -n "$SEEDS" ]; then echo "$d exits=$codes (seeds $SEEDS) :: $sigs"; else echo "$d exit=$rc $(echo "$out" | tail -1 | sed 's/ wall.*//') :: $sigs"; fi
   git -C $WT checkout -q -- .
 done
